@@ -9,7 +9,11 @@ PID = "C02"
 IMPORTS = "From OV Require Import Model.Vector Model.Matrix Model.MatOps Model.Solve."
 MODEL_VO = ["Model/Solve.vo"]
 RULE = ("square matrices of order 1..8 over Rat/f64/Complex: dense, sparse-patterned, permutation-like (odd and even numbers of exchanges), "
-        "triangular, singular (rank n-1, rank <= n-2, zero rows/columns, all-ones); kinds det, inverse, lu; adversarial family cplx-extreme-scale "
+        "triangular, singular (rank n-1, rank <= n-2, zero rows/columns, all-ones); kinds det, inverse, lu; round four: 18 special structures "
+        "(identity, scalar, diagonal, unit triangular, anti-diagonal, cyclic shift, Toeplitz, arrow, all entries +-1, columns of equal magnitude, symmetric, "
+        "gapped band, diagonal plus corners) at Rat / f64 / Complex (columns times 1, +-i, 0.6+0.8i, 1+i), Complex matrices of special values only, signed zeros, "
+        "matrices scaled by 2^+-k (inverse k <= 900, determinant k*n <= 900), orders 9..12 (Rat) and 9..24 (f64; ..32 thorough), lower-triangular and "
+        "sparse-patterned float families, sparse-patterned Rat (singular patterns included); adversarial family cplx-extreme-scale "
         "(well-conditioned Complex<f64> matrices with |z| in 1e-200..1e-155 and 1e155..1e200: recorded finding cplx-sqmod-range); "
         "distinct = distinct executor line; non-trivial = order >= 2")
 TRUSTED = c01.TRUSTED
@@ -36,7 +40,9 @@ MANIFEST = dict(
           "check (Rat vs Qc exact; f64/Complex<f64> vs primitive floats, bit-compared) on orders 1..8 of dense, zero-leading, permutation-like, "
           "triangular and singular (rank n-1, rank <= n-2, zero rows/columns, all-ones) matrices with odd and even numbers of exchanges; an "
           "independent exact determinant (Fraction elimination, real and complex), the two-sided inverse identity and P*A = L*U itself are "
-          "evaluated on the implementation's answers to search for a failing input; the operand is compared with a clone taken before the call."),
+          "evaluated on the implementation's answers to search for a failing input; the operand is compared with a clone taken before the call. "
+          "Structured families (round four): special structures, Complex entries on the axes / of unit modulus / with |re| = |im|, signed zeros, "
+          "scaling by 2^+-k, orders above 8, sparse patterns."),
     note=("Partial: rounding accuracy of det/inverse over f64/Complex<f64> is tied (bitwise against the float model) and searched (1e-10/1e-9 "
           "scaled tolerances), not proved. 'Matrix left intact' is true by typing in a value model; in Rust it is a run-time observation of the "
           "executor (snapshot before/after). PivLaws (abs x = 0 <-> x = 0; x <> 0 -> 0 < |x|; not |x| < 0) is an auxiliary hypothesis the code "
@@ -226,7 +232,7 @@ def gen_special(rng, tier):
         A = [(-0.0 if (x == 0 and g.chance(1, 2)) else x) for x in A]
         for kind in ("det", "inverse"):
             cases.append(mk('f64', kind, n, A, "f64-neg-zero-" + kind, n >= 2))
-    # (s4) magnitudes: the whole matrix scaled by 2^+-k.  inverse: k = 200..480 (f64), 100..300 (Complex, inside the range where
+    # (s4) magnitudes: the whole matrix scaled by 2^+-k.  inverse: k = 200..900 (f64, half of them beyond 2^+-512 where the square of an entry leaves the range), 100..300 (Complex, inside the range where
     # re^2+im^2 is normal); determinant: k*n <= 960 so that the exact determinant (scaled by 2^(+-k n)) is a normal number
     g = rng.fork("extreme-scale")
     for t in range(36 if quick else 240):
@@ -238,7 +244,7 @@ def gen_special(rng, tier):
         if not c01.nonsingular(A, n): continue
         cplx = t % 3 == 2
         sg = 1 if g.chance(1, 2) else -1
-        ki = g.range(100, 300) if cplx else g.range(200, 480)
+        ki = g.range(100, 300) if cplx else (g.range(520, 900) if t % 2 == 0 else g.range(200, 519))   # beyond 2^+-512 squares leave the range
         kd = min(ki, 900 // n) if not cplx else min(ki, 450 // n)
         if cplx: A = [complex(x, c01.fval(g) if g.chance(1, 2) else 0.0) for x in A]
         elt = 'cplx' if cplx else 'f64'
@@ -422,7 +428,13 @@ def oracle(case, items):
             STATS["inverse_singular_skipped"] += 1
             return None       # singular: outside the quantifier
         if items[-1][0] == 'P':
-            return "inverse panicked (%s) on a nonsingular matrix" % items[-1][1] if exact else None
+            if exact: return "inverse panicked (%s) on a nonsingular matrix" % items[-1][1]
+            # Complex<f64> (round four): a panic is a failure as soon as the exact complex determinant is non-zero
+            # (float division never panics; an index or guard panic on a nonsingular matrix is not "singular input")
+            try:
+                if cdet_exact(A, n) != (0, 0): return "inverse panicked (%s) on a Complex matrix whose exact determinant is non-zero" % items[-1][1]
+            except (OverflowError, ValueError): pass
+            return None
         (r, c, X), _ = parse_items_mat(items, 0, elt)
         if (r, c) != (n, n): return "inverse has shape %dx%d" % (r, c)
         STATS["inverse_identity_checked"] += 1
